@@ -15,7 +15,7 @@ RULE = ("(trees) every labelled tree with 1..6 (quick) / 1..7 (thorough) vertice
         "atom, generic coordinates and displacement from numpy default_rng([VERIF_SEED, index]), bond table measured "
         "from the geometry and a second table of random lengths; (random) Hypothesis trees / chains / stars / cyclic "
         "graphs and forests (moved atom possibly without any bond) of 1..60 atoms with arbitrary displacement, coordinate "
-        "array in several memory layouts; (displ) find_atom_random_displ for atoms with 1, 2, >=3 "
+        "array in several memory layouts, the bond-table dict fresh or re-used after an in-place update; (displ) find_atom_random_displ for atoms with 1, 2, >=3 "
         "neighbours. Non-trivial = the re-projection propagates at least two bonds away from the moved atom "
         "(displ: the molecule is not axis-aligned). Distinct = sha1 of the case JSON.")
 ASSUMPTIONS = [
@@ -84,6 +84,7 @@ def random_case(draw):
     case = make_case(n, edges, atom, rng, draw(st.sampled_from(["measured", "random"])))
     case["graph"] = kind
     case["mem"] = draw(st.sampled_from(gen.ARRAY_LAYOUTS))
+    case["reuse"] = draw(st.sampled_from([None, None, "rescaled", "other-tree"]))
     return case
 
 
@@ -94,6 +95,21 @@ def check_move(case):
     displ = np.array(case["displ"], float)
     displ_before = displ.copy()
     tab = bond_table(n, edges, case["lengths"])
+    if case.get("reuse") and n > 1:
+        # the caller keeps ONE bond-table dict and updates it in place between calls (same object, new contents)
+        real = tab
+        if case["reuse"] == "rescaled":
+            tab = {i: [(j, L * 1.37) for j, L in lst] for i, lst in real.items()}
+        else:
+            chain = [(k, k + 1) for k in range(n - 1)]
+            tab = bond_table(n, chain, [0.21 + 0.01 * k for k in range(n - 1)])
+        lib("move-prior", gaddlemaps.move_mol_atom, pos.copy(), tab, atom, displ.copy())
+        if case["reuse"] == "rescaled":
+            for i in tab:
+                tab[i][:] = real[i]
+        else:
+            tab.clear()
+            tab.update(real)
     out = lib("move", gaddlemaps.move_mol_atom, pos, tab, atom, displ)
     out = np.asarray(out, float)
     if not np.array_equal(pos, before) or not np.array_equal(displ, displ_before):
@@ -134,7 +150,8 @@ def check_move(case):
     depth = depth_from(n, edges, atom)
     return {"nontrivial": max(depth.values()) >= 2,
             "classes": ["table:" + case["table"], "tree" if is_tree else ("cyclic" if len(edges) >= n else "forest"),
-                        "depth:%s" % min(max(depth.values()), 4), "mem:" + case.get("mem", "C")]}
+                        "depth:%s" % min(max(depth.values()), 4), "mem:" + case.get("mem", "C"),
+                        "table-object:" + (case.get("reuse") or "fresh")]}
 
 
 # ------------------------------------------------------------------ random displacement
